@@ -372,7 +372,17 @@ type splitter struct {
 	compat   bool // no conflicting roles
 	disjoint bool // nothing goes to both sides
 	rare     bool // conflicting roles are rare (so that single reasons decide the verdict)
+	focus    model.FKind // list kind whose overlapping roles are preferred (when hasFocus)
+	hasFocus bool
 	o        model.GenOpts
+}
+
+// fw scales the weight of an overlapping role of a list of kind k.
+func (s *splitter) fw(k model.FKind, x int) int {
+	if s.hasFocus && s.focus == k {
+		return 3 * x
+	}
+	return x
 }
 
 func (s *splitter) pick(label string, weights ...int) int {
@@ -484,7 +494,7 @@ func (s *splitter) node(m *model.Node, keyLeaves map[string]bool, depth int) (*m
 			if n == 0 {
 				continue
 			}
-			wSplit, wPart, wPerm := 15, s.lw(14), s.lw(5)
+			wSplit, wPart, wPerm := 15, s.fw(model.FLeafList, s.lw(14)), s.fw(model.FLeafList, s.lw(5))
 			if n < 2 {
 				wSplit, wPart, wPerm = 0, 0, 0
 			}
@@ -566,7 +576,7 @@ func (s *splitter) node(m *model.Node, keyLeaves map[string]bool, depth int) (*m
 			if s.compat {
 				wGuard = 0
 			}
-			switch s.pick("ord", 10, 10, s.bw(14), 14, s.bw(16)*wMulti, s.bw(wGuard)*wMulti, s.lw(12)*wMulti, s.lw(16)*wMulti, s.lw(14)*wMulti) {
+			switch s.pick("ord", 10, 10, s.bw(14), 14, s.bw(16)*wMulti, s.bw(wGuard)*wMulti, s.fw(model.FOrdList, s.lw(12))*wMulti, s.fw(model.FOrdList, s.lw(16))*wMulti, s.fw(model.FOrdList, s.lw(14))*wMulti) {
 			case 0: // a only
 				a.List[name] = clones(l)
 			case 1: // b only
@@ -607,14 +617,24 @@ func (s *splitter) node(m *model.Node, keyLeaves map[string]bool, depth int) (*m
 					rb[i], rb[j] = rb[j], rb[i]
 				}
 				a.List[name], b.List[name] = ra, rb
-			case 7: // partial overlap, b starts with a shared key
-				i := rapid.IntRange(0, n-2).Draw(s.rt, "from")
+			case 7: // partial overlap (needs three keys): a = l[:j], b = l[i:], 0 < i < j < n
+				if n < 3 {
+					ra, rb := both(l)
+					a.List[name], b.List[name] = ra, []*model.Entry{rb[1], rb[0]}
+					break
+				}
+				i := rapid.IntRange(1, n-2).Draw(s.rt, "from")
 				j := rapid.IntRange(i+1, n-1).Draw(s.rt, "to")
 				a.List[name], b.List[name] = clones(l[:j]), clones(l[i:])
-			case 8: // partial overlap, b starts with a key that a does not have
-				j := rapid.IntRange(1, n-1).Draw(s.rt, "to")
+			case 8: // partial overlap, b starts with a key that a does not have: a = l[:j], b = l[j:] ++ l[:j-1]
+				if n < 3 {
+					ra, rb := both(l)
+					a.List[name], b.List[name] = ra, []*model.Entry{rb[1], rb[0]}
+					break
+				}
+				j := rapid.IntRange(2, n-1).Draw(s.rt, "to")
 				a.List[name] = clones(l[:j])
-				b.List[name] = append(clones(l[j:]), clones(l[:j])...)
+				b.List[name] = append(clones(l[j:]), clones(l[:j-1])...)
 			}
 		case model.FUList:
 			l := m.UList[name]
@@ -622,11 +642,11 @@ func (s *splitter) node(m *model.Node, keyLeaves map[string]bool, depth int) (*m
 			if n == 0 {
 				continue
 			}
-			wSplit, wPart, wPerm := 15, s.lw(14), s.lw(6)
+			wSplit, wPart, wPerm := s.fw(model.FUList, 15), s.fw(model.FUList, s.lw(14)), s.fw(model.FUList, s.lw(6))
 			if n < 2 {
 				wSplit, wPart, wPerm = 0, 0, 0
 			}
-			switch s.pick("ul", 20, 20, s.bw(20), wSplit, wPart, wPerm) {
+			switch s.pick("ul", 20, 20, s.fw(model.FUList, s.bw(20)), wSplit, wPart, wPerm) {
 			case 0:
 				a.UList[name] = cloneNodes(l)
 			case 1:
